@@ -9,8 +9,9 @@ uint32_t _ZNSi3getEv(void *i);
 struct gl_str { char *p; uint64_t len; union { char buf[16]; uint64_t cap; } u; };
 static uint32_t *gl_state(void *is) {
   /* what the header-inlined fail()/eof() do: vbase offset at vptr[-3], state word at ios+32 */
-  char *vptr = *(char **)is;
-  int64_t off = *(int64_t *)(vptr - 24);
+  /* the slots of the model's vtable are pointers (null + k), read as a pointer offset so that it constant-folds */
+  uint8_t **vptr = *(uint8_t ***)is;
+  int64_t off = (int64_t)__CPROVER_POINTER_OFFSET(vptr[-3]);
   return (uint32_t *)((char *)is + off + 32);
 }
 void *_ZSt7getlineIcSt11char_traitsIcESaIcEERSt13basic_istreamIT_T0_ES7_RNSt7__cxx1112basic_stringIS4_S5_T1_EES4_(void *is, void *sv, uint8_t delim) {
@@ -31,4 +32,8 @@ void *_ZSt7getlineIcSt11char_traitsIcESaIcEERSt13basic_istreamIT_T0_ES7_RNSt7__c
   }
   if (extracted == 0) *state |= 4;
   return is;
+}
+/* two-argument form (stays out of line under -fno-inline): delimiter '\n' */
+void *_ZSt7getlineIcSt11char_traitsIcESaIcEERSt13basic_istreamIT_T0_ES7_RNSt7__cxx1112basic_stringIS4_S5_T1_EE(void *is, void *sv) {
+  return _ZSt7getlineIcSt11char_traitsIcESaIcEERSt13basic_istreamIT_T0_ES7_RNSt7__cxx1112basic_stringIS4_S5_T1_EES4_(is, sv, '\n');
 }
